@@ -479,7 +479,7 @@ def e2e_file(name, expr, ident):
     """a valid package-main file defining one target <ident> that prints its working directory"""
     form = "none" if expr is None else "gobuild"
     text = file_text(form, expr, None, "main", ident, None).replace(
-        "func %s() {}" % ident, 'func %s() { wd, _ := os.Getwd(); fmt.Println("WD", wd) }' % ident).replace(
+        "func %s() {}" % ident, '//go:noinline\nfunc %s() { wd, _ := os.Getwd(); fmt.Println("WD", wd) }' % ident).replace(
         "package main\n", 'package main\n\nimport (\n\t"fmt"\n\t"os"\n)\n', 1)
     return {"name": name, "form": form, "expr": expr, "pkg": "main", "broken": None, "ident": ident, "text": text}
 
@@ -587,22 +587,25 @@ def run_e2e(ctx, host, nrelease, release, tooltags):
         res = {}
         if j["kind"] == "compile":
             out = os.path.join(proj, "out.bin")
-            args = ["-debug", "-compile", out]
+            args = ["-compile", out]
             if j["flags"][0]:
                 args += ["-goos", j["flags"][0]]
             if j["flags"][1]:
                 args += ["-goarch", j["flags"][1]]
             r = mg.run(proj, args, env=j["env"], timeout=600)
             res["rc"] = r["rc"]
-            m = re.search(r"found magefiles: (.*)", r["err"])
-            res["files"] = sorted(os.path.basename(x.strip()) for x in m.group(1).split(",")) if m else None
-            res["magic"] = open(out, "rb").read(4).hex() if os.path.exists(out) else None
+            # which files were compiled in: the binary's function-name table holds main.<Target> of every file used
+            # (the targets are //go:noinline and reachable from the generated main); no wording of any message is read
+            blob = open(out, "rb").read() if os.path.exists(out) else b""
+            res["files"] = sorted(f["name"] for f in j["top"]["files"]
+                                  if re.search(rb"main\." + f["ident"].encode() + rb"(?![A-Za-z0-9_])", blob)) if blob else None
+            res["magic"] = blob[:4].hex() if blob else None
             res["err"] = r["err"][-1500:] if r["rc"] != 0 else ""
         else:
             r = mg.run(proj, ["-l"], env=j["env"])
             res["rc"] = r["rc"]
             res["targets"] = sorted(projlib.parse_list(r["out"])["targets"])
-            res["warn"] = "both a magefiles directory and mage files" in r["err"]
+            res["warn"] = bool(r["err"].strip())      # some warning on stderr; its wording is not read
             res["err"] = r["err"][-1500:] if r["rc"] != 0 else ""
             res["wd"] = None
             if r["rc"] == 0 and res["targets"]:
@@ -631,7 +634,7 @@ def run_e2e(ctx, host, nrelease, release, tooltags):
         got_files = None
         if not want and j["kind"] != "compile":
             # neither the directory nor a magefiles subdirectory provides a magefile: mage must say so
-            if res["rc"] == 0 or "No .go files marked with the mage build tag" not in res["err"]:
+            if res["rc"] == 0 or res.get("targets"):
                 bad = "no file of the project requires the mage tag, but `mage -l` exited %d listing %s: %s" % (res["rc"], res.get("targets"), res["err"][-300:])
         elif res["rc"] != 0:
             bad = "mage failed (rc=%d): %s" % (res["rc"], res["err"][-400:])
